@@ -86,7 +86,15 @@ def build_scenario(rnd):
             def impl3(self, a0=None, a1=None, dbusCaller=None):
                 args = [a for a in (a0, a1) if a is not None]
                 return body(args, dbusCaller)
-            return impl3
+            # the caller's name is asked for by the LAST POSITIONAL parameter being called dbusCaller - whatever follows it
+            # (keyword-only parameters, **options) does not change that
+            def impl4(self, a0=None, a1=None, dbusCaller=None, **options):
+                args = [a for a in (a0, a1) if a is not None]
+                return body(args, dbusCaller)
+            def impl5(self, a0=None, a1=None, dbusCaller=None, *, sep='@'):
+                args = [a for a in (a0, a1) if a is not None]
+                return body(args, dbusCaller)
+            return rnd.choice([impl3, impl3, impl4, impl5])
         def impl(self, *args):
             return body(args, None)
         return impl
@@ -131,6 +139,12 @@ def build_scenario(rnd):
     Derived = type('Derived', (Base,), derived_ns)
     conn = Conn()
     handler = objects.DBusObjectHandler(conn)
+    if rnd.random() < 0.5:
+        # an object of the BASE class is exported and used first: the derived class still has its own interfaces afterwards
+        early = Base('/org/verif/Early')
+        handler.exportObject(early)
+        early.getInterfaces()
+        del conn.sent[:]
     obj = Derived('/org/verif/Obj')
     handler.exportObject(obj)
     order = derived_ifaces + base_ifaces          # getInterfaces(): MRO order
@@ -273,7 +287,7 @@ def bounded(tier, seed):
     f = history_cases()
     if f:
         return n, f, {'case': 'history'}
-    for s in range(1500 if tier == 'thorough' else 40):
+    for s in range(6000 if tier == 'thorough' else 40):
         sc = build_scenario(rnd)
         for k in range(25):
             n += 1
